@@ -4,7 +4,7 @@ from . import common as C
 
 RULE = ('blobs of 2-6 records (fresh key each, empty metadata, data lengths 0/5/40/300) written by the storage, closed; '
         'validate_blob / validate_index / read_index on the untouched files; then one damage: truncation at every class '
-        'of length (record boundary, inside header/meta/data, blob header) or a flipped byte in a position class of a '
+        'of length (record boundary, inside header/meta/data, blob header) or a flipped byte in a position class (magic, key, flags, each byte of blob_offset, timestamp, checksums, meta, data) of a '
         'chosen record (key, sizes, timestamp, checksums, meta, data, blob magic); validate must reject; recovery with '
         'and without skipping: output compared BYTE-EXACT with the Coq tools model (Blob/Scan.v tool_recover), must '
         'validate, is installed in place of the blob, the storage opens it and reads every record; distinct by '
@@ -43,8 +43,9 @@ def gen_script(rng):
     else:
         # header field offsets inside a record header (K=4): magic 0, klen 8, key 16, msize 20, dsize 28, flags 36,
         # off 37, ts 45, dcrc 53, hcrc 57
-        cls = rng.choice(['magic', 'key', 'ts', 'dcrc', 'hcrc', 'flags', 'meta', 'data', 'blobmagic'])
+        cls = rng.choice(['magic', 'key', 'ts', 'dcrc', 'hcrc', 'flags', 'off', 'off', 'meta', 'data', 'blobmagic'])
         pos = {'magic': s + 2, 'key': s + 17, 'ts': s + 46, 'dcrc': s + 54, 'hcrc': s + 58, 'flags': s + 36,
+               'off': s + 37 + rng.randrange(8),
                'meta': he + 1, 'data': me + (ln // 2) if ln > 0 else s + 46, 'blobmagic': 1}[cls]
         if cls == 'data' and ln == 0: cls = 'ts'
         L.append('#DAMAGE flip %s rec=%d' % (cls, j))
